@@ -1,4 +1,4 @@
-import Ypv.Lemmas.Parser
+import Ypv.Lemmas.PathSim
 import Ypv.Model.Render
 /-!
 # C08 — path text and parsed segments round-trip in both notations
@@ -16,25 +16,26 @@ def isBasic : Seg → Bool
   | (.index, .str _) | (.anchor, .str _) => true
   | _ => false
 
-theorem simOK_basic {sep : Char} (hsep : sep = '.' ∨ sep = '/') :
-    SimOK sep (fun s => isBasic s = true) := by
-  intro seg hP ac st ss lead h hlead hwf
-  obtain ⟨t, a⟩ := seg
-  cases t <;> cases a <;> simp only [isBasic, Bool.false_eq_true] at hP
-  case key.str k => exact seg_key hsep h lead hlead k hwf
-  case matchAll.none => exact seg_matchAll hsep h lead hlead
-  case traverse.none => exact seg_traverse hsep h lead hlead
-  case index.int i => exact seg_int hsep h lead i
-  case index.str s => exact seg_slice hsep h lead s hwf
-  case anchor.str s => exact seg_anchor h lead s hwf
+theorem markFrom_basic : ∀ (segs : List Seg) (mm : Bool), (∀ s ∈ segs, isBasic s = true) →
+    markFrom mm segs = true := by
+  intro segs
+  induction segs with
+  | nil => intro _ _; rfl
+  | cons s r ih =>
+    intro mm h
+    have hs := h s (by simp)
+    have h1 : isInterColl s = false ∧ isEmptyColl s = false := by
+      obtain ⟨t, a⟩ := s
+      cases t <;> cases a <;> simp_all [isBasic, isInterColl, isEmptyColl]
+    simp [markFrom, h1.1, h1.2, ih false (fun x hx => h x (by simp [hx]))]
 
 /-- **parse_write, stage 1.**  Every well-formed list of KEY / INDEX / slice / ANCHOR / MATCH_ALL /
 TRAVERSE segments, of any length, written in dot (`fslash = false`) or forward-slash notation,
-parses back to exactly that list. -/
+parses back to exactly that list — no restriction at all (finding C08-6 needs collectors). -/
 theorem parse_write_basic (fslash : Bool) (segs : List Seg)
     (hk : ∀ s ∈ segs, isBasic s = true) (hwf : wfSegs segs = true) :
-    parseWith fslash true (write fslash segs) = .ok segs :=
-  parse_write_of (simOK_basic (Or.inl rfl)) (simOK_basic (Or.inr rfl)) fslash segs hk hwf
+    parseWith fslash true (write fslash segs) = .ok segs := by
+  simpa using Sim.parseWith_write fslash true segs hwf (fun _ => markFrom_basic segs true hk)
 
 theorem normOriginal_idem (t : Str) : normOriginal (normOriginal t) = normOriginal t := by
   unfold normOriginal
@@ -68,19 +69,51 @@ theorem parse_write_basic_inferred (fslash : Bool) (segs : List Seg)
     parse true (write fslash segs) = .ok segs :=
   parse_inferred fslash segs _ hx (parse_write_basic fslash segs hk hwf)
 
-/-- **parse_write for further segment kinds (partial).**  FULL STATEMENT wanted:
-`wfSegs segs → parseWith fslash true (write fslash segs) = .ok segs` for lists that also hold
-SEARCH (all nine operators, inversion), KEYWORD_SEARCH and COLLECTOR segments.  What is proved:
-the composition for ANY set `P` of segment kinds — the only missing ingredient is the
-per-kind simulation lemma `SimOK sep P` ("from a between-segments state, the written form of one
-segment of kind P leads to a between-segments state with that segment appended") for those three
-kinds; for stage 1 it is `simOK_basic`.  The check covers the three kinds by the exhaustive/random
-differential run only. -/
-theorem parse_write_search_keyword_collector_partial (P : Seg → Prop)
-    (hdot : SimOK '.' P) (hslash : SimOK '/' P) (fslash : Bool) (segs : List Seg)
-    (hk : ∀ s ∈ segs, P s) (hwf : wfSegs segs = true) :
-    parseWith fslash true (write fslash segs) = .ok segs :=
-  parse_write_of hdot hslash fslash segs hk hwf
+/-- **parse_write, dot notation (full).**  Every well-formed list of segments of ALL kinds — KEY,
+INDEX, slice, ANCHOR, MATCH_ALL, TRAVERSE, SEARCH (nine operators, inversion, the regular-expression
+delimiter chosen by the writer), KEYWORD_SEARCH, COLLECTOR (all operators) — of any length, written in
+dot notation, parses back to exactly that list. -/
+theorem parse_write_dot (segs : List Seg) (hwf : wfSegs segs = true) :
+    parseWith false true (write false segs) = .ok segs := by
+  simpa using Sim.parseWith_write false true segs hwf (by simp)
+
+/-- **parse_write, both notations (partial only by finding C08-6).**  FULL STATEMENT:
+`wfSegs segs → parseWith fslash true (write fslash segs) = .ok segs`.  It FAILS on the pinned code
+for forward-slash texts that start with one or more empty collectors `()` directly followed by an
+intersection collector `&(…)` (`/()&(b)`: the `&` is taken for an anchor mark because
+`seeking_anchor_mark`, set by the leading `/`, is only cleared by the next character that joins a
+segment text; witness `finding6` below, reproduced on /repo).  Proved for every other well-formed
+list: `fslashExpressible` is exactly the complement of that class; for dot notation there is no
+restriction (`parse_write_dot`). -/
+theorem parse_write_partial (fslash : Bool) (segs : List Seg) (hwf : wfSegs segs = true)
+    (hx : fslash = true → fslashExpressible segs = true) :
+    parseWith fslash true (write fslash segs) = .ok segs := by
+  simpa using Sim.parseWith_write fslash true segs hwf hx
+
+/-- the witness of finding C08-6: a well-formed list whose forward-slash text loses the `&` -/
+def finding6 : List Seg :=
+  [(.collector, .collector [] .none), (.collector, .collector "b".toList .inter)]
+example : wfSegs finding6 = true ∧ fslashExpressible finding6 = false ∧
+    write true finding6 = "/()&(b)".toList ∧
+    parseWith true true (write true finding6) =
+      .ok [(.collector, .collector [] .none), (.collector, .collector "b".toList .none)] ∧
+    parseWith false true (write false finding6) = .ok finding6 := by decide +kernel
+
+/-- **The `strip = false` twin (`YAMLPath.unescaped`).**  The unescaped segments of a written
+well-formed list are the same segments with their texts as written (`keepEsc`: escapes kept). -/
+theorem parse_write_unescaped_partial (fslash : Bool) (segs : List Seg) (hwf : wfSegs segs = true)
+    (hx : fslash = true → fslashExpressible segs = true) :
+    parseWith fslash false (write fslash segs) =
+      .ok (segs.map (keepEsc (if fslash then '/' else '.'))) := by
+  simpa using Sim.parseWith_write fslash false segs hwf hx
+
+/-- with the separator inferred from the text -/
+theorem parse_write_inferred_partial (fslash : Bool) (segs : List Seg) (hwf : wfSegs segs = true)
+    (hx : if fslash then fslashExpressible segs = true else dotExpressible segs = true) :
+    parse true (write fslash segs) = .ok segs := by
+  cases fslash with
+  | true => exact parse_inferred true segs _ (Or.inl rfl) (parse_write_partial true segs hwf (fun _ => hx))
+  | false => exact parse_inferred false segs _ (Or.inr hx) (parse_write_dot segs hwf)
 
 /-- **eq_iff_segments.**  The model of `YAMLPath.__eq__` (after `fixes/C08-3.patch`) answers
 `true` exactly when both texts parse and their segment lists are the same. -/
@@ -95,19 +128,111 @@ theorem eq_iff_segments (a b : Str) :
   cases ha : parse true a <;> cases hb : parse true b <;> simp
   exact eq_comm
 
-/-- …and on written paths: two well-formed lists, each written in either notation, compare equal
-iff they are the same list (stated for the stage-1 kinds, for which `parse_write` is proved). -/
+/-- …and on written paths: two well-formed lists (all kinds), each written in either notation,
+compare equal iff they are the same list. -/
 theorem eq_written (f1 f2 : Bool) (s1 s2 : List Seg)
-    (h1 : ∀ s ∈ s1, isBasic s = true) (h2 : ∀ s ∈ s2, isBasic s = true)
     (w1 : wfSegs s1 = true) (w2 : wfSegs s2 = true)
-    (x1 : f1 = true ∨ dotExpressible s1 = true) (x2 : f2 = true ∨ dotExpressible s2 = true) :
+    (x1 : if f1 then fslashExpressible s1 = true else dotExpressible s1 = true)
+    (x2 : if f2 then fslashExpressible s2 = true else dotExpressible s2 = true) :
     eqModel (write f1 s1) (write f2 s2) = .ok true ↔ s1 = s2 := by
-  rw [eq_iff_segments, parse_write_basic_inferred f1 s1 h1 w1 x1,
-    parse_write_basic_inferred f2 s2 h2 w2 x2]
+  rw [eq_iff_segments, parse_write_inferred_partial f1 s1 w1 x1,
+    parse_write_inferred_partial f2 s2 w2 x2]
   constructor
   · rintro ⟨s, ha, hb⟩
     cases ha; cases hb; rfl
   · rintro rfl; exact ⟨s1, rfl, rfl⟩
+
+/-- **render_fixed_point (partial only by finding C08-6).**  Take a well-formed list `segs` (all
+kinds), write it in notation `f`, let `u` be what `YAMLPath(text).unescaped` holds
+(`parse_write_unescaped_partial`), and let `S = render f' u` be the library's canonical string in
+notation `f'` (`__str__`, or the string after `separator = …`).  Then
+* `S` re-parses (`escaped`) to exactly `segs`, in either notation `f'`;
+* `S` is a fixed point: rendering the unescaped segments of `S` in the same notation gives `S` again.
+The only restriction is the one of `parse_write_partial`: a forward-slash *text* (the written one or the
+rendered one) must not be in the class of finding C08-6. -/
+theorem render_fixed_point_partial (f f' : Bool) (segs : List Seg) (hwf : wfSegs segs = true)
+    (hx : (f = true ∨ f' = true) → fslashExpressible segs = true) :
+    ∃ u, parseWith f false (write f segs) = .ok u ∧
+      parseWith f' true (render f' u) = .ok segs ∧
+      ∃ u', parseWith f' false (render f' u) = .ok u' ∧ render f' u' = render f' u := by
+  refine ⟨segs.map (keepEsc (Sim.sepOf f)),
+    parse_write_unescaped_partial f segs hwf (fun h => hx (Or.inl h)), ?_⟩
+  obtain ⟨h1, _, u', h2, h3, _⟩ := Sim.render_roundtrip f f' segs hwf (fun h => hx (Or.inr h))
+  exact ⟨h1, u', h2, h3⟩
+
+theorem inferSep_of_head {t : Str} (f : Bool) (hne : t ≠ [])
+    (h : if f then t.head? = some '/' else t.head? ≠ some '/') :
+    inferSep t = (if f then .fslash else .dot) ∧ (normOriginal t = t → inferFslash t = f) := by
+  cases t with
+  | nil => exact absurd rfl hne
+  | cons c r =>
+    cases f with
+    | true =>
+      have hc : c = '/' := by simpa using h
+      subst hc
+      exact ⟨by simp [inferSep], fun hn => by simp [inferFslash, hn]⟩
+    | false =>
+      have hc : c ≠ '/' := by simpa using h
+      exact ⟨by simp [inferSep, hc], fun hn => by simp [inferFslash, hn, hc]⟩
+
+/-- `str()` of a freshly built path object whose text `t` (not blank, not empty) has the unescaped
+segments `u ≠ []`: the rendering of `u` in the notation inferred from `t` -/
+theorem str_new (f : Bool) (t : Str) (u : List Seg) (hn : normOriginal t = t)
+    (hs : inferSep t = if f then .fslash else .dot) (hu : parseWith f false t = .ok u) (hune : u ≠ []) :
+    ∃ p, (PathObj.new t).str = .ok (render f u, p) := by
+  cases f <;>
+    simp [PathObj.str, PathObj.new, PathObj.setOriginal, PathObj.unescaped, PathObj.parseObj,
+      PathObj.getSep, hn, hs, SepOpt.isFslash] at hu ⊢ <;>
+    simp [hu, hune]
+
+/-- the same through the object model: `str(YAMLPath(text))` with the separator inferred from the
+text re-parses (separator inferred again) to the written segments and is a fixed point of
+`str ∘ YAMLPath`.  In dot notation neither the text nor its rendering may start with `/` (such texts
+are forward-slash paths by the notation's own definition). -/
+theorem str_fixed_point_partial (f : Bool) (segs : List Seg) (hwf : wfSegs segs = true)
+    (hne : segs ≠ [])
+    (hx : if f then fslashExpressible segs = true else
+      dotExpressible segs = true ∧
+        (render false (segs.map (keepEsc '.'))).head? ≠ some '/') :
+    ∃ S p, (PathObj.new (write f segs)).str = .ok (S, p) ∧ parse true S = .ok segs ∧
+      ∃ p', (PathObj.new S).str = .ok (S, p') := by
+  have hxf : f = true → fslashExpressible segs = true := by
+    intro h; subst h; exact hx
+  have hu : parseWith f false (write f segs) = .ok (segs.map (keepEsc (Sim.sepOf f))) :=
+    parse_write_unescaped_partial f segs hwf hxf
+  obtain ⟨hp, hSn, u', hu', hfix, hlen⟩ := Sim.render_roundtrip f f segs hwf hxf
+  have hune : segs.map (keepEsc (Sim.sepOf f)) ≠ [] := by simpa using hne
+  have hu'ne : u' ≠ [] := by
+    intro h0; rw [h0] at hlen
+    exact hne (List.length_eq_zero_iff.mp hlen.symm)
+  -- neither text is empty
+  have hwne : write f segs ≠ [] := by
+    intro h0
+    have := parse_write_partial f segs hwf hxf
+    rw [h0, Sim.parseWith_nil] at this
+    exact hne (Except.ok.inj this).symm
+  have hSne : render f (segs.map (keepEsc (Sim.sepOf f))) ≠ [] := by
+    intro h0
+    rw [h0, Sim.parseWith_nil] at hp
+    exact hne (Except.ok.inj hp).symm
+  -- the separators inferred from the written and from the rendered text
+  have hhead1 : if f then (write f segs).head? = some '/' else (write f segs).head? ≠ some '/' := by
+    cases f
+    · simpa [dotExpressible] using hx.1
+    · simp [write]
+  have hhead2 : if f then (render f (segs.map (keepEsc (Sim.sepOf f)))).head? = some '/'
+      else (render f (segs.map (keepEsc (Sim.sepOf f)))).head? ≠ some '/' := by
+    cases f
+    · simpa [Sim.sepOf] using hx.2
+    · simp [render]
+  obtain ⟨hs1, _⟩ := inferSep_of_head f hwne hhead1
+  obtain ⟨hs2, hi2⟩ := inferSep_of_head f hSne hhead2
+  obtain ⟨p, hstr1⟩ := str_new f _ _ (Sim.write_nonblank f segs hwf) hs1 hu hune
+  obtain ⟨p', hstr2⟩ := str_new f _ _ hSn hs2 hu' hu'ne
+  refine ⟨_, p, hstr1, ?_, p', ?_⟩
+  · unfold parse
+    rw [hi2 hSn]; exact hp
+  · rw [hfix] at hstr2; exact hstr2
 
 theorem endsWith_append (a b : Str) : endsWith (a ++ b) b = true := by
   simp [endsWith]
@@ -115,14 +240,11 @@ theorem endsWith_append (a b : Str) : endsWith (a ++ b) b = true := by
 /-- what `pop()` returns and the text it leaves -/
 def popView (p : PathObj) : Except PErr (Seg × Str) := (p.pop).map (fun x => (x.1, x.2.original))
 
-/-- **append_pop (partial).**  FULL STATEMENT wanted: for a written well-formed path `t` and the
-canonical text `seg` of one more segment, `YAMLPath(t).append(seg)` followed by `pop()` returns that
-segment and leaves the text `t`.  Proved here: `pop()` on the lengthened text `o1 = t ++ sep :: seg`
-returns the last (unescaped) segment `last` and restores exactly `t` WHENEVER `seg` is the
-library's own rendering of `last` (hypothesis `hr`; this is how the check builds `seg`).
-Missing: the strip=false twins of the simulation lemmas, which would discharge `hu`, `hl`, `hr` for
-canonical texts.  `append_text` is the other half: what `append` does to the text. -/
-theorem append_pop_partial (t seg : Str) (o1 : Str) (hn : normOriginal o1 = o1) (hnt : normOriginal t = t)
+/-- `pop()` on a lengthened text `o1 = t ++ sep :: seg` returns the last (unescaped) segment `last`
+and restores exactly `t` whenever `seg` is the library's own rendering of `last` (`hr`) and `o1` has
+the unescaped segments `u` ending in `last`.  (`append_pop_partial` below discharges the hypotheses
+for written paths; `append_text` says what `append` does to the text.) -/
+theorem pop_of_rendered (t seg : Str) (o1 : Str) (hn : normOriginal o1 = o1) (hnt : normOriginal t = t)
     (ho : o1 = t ++ (inferSep o1).char :: seg)
     (u : List Seg) (last : Seg)
     (hu : parseWith (inferSep o1).isFslash false o1 = .ok u) (hl : u.getLast? = some last)
@@ -172,6 +294,58 @@ theorem append_text (t seg : Str) (hnt : normOriginal t = t) (ht : t ≠ []) :
     | cons c r => simp
   simp [PathObj.append, PathObj.new, PathObj.setOriginal, PathObj.getSep, hnt, hl]
 
+/-- **append_pop (partial only by finding C08-6).**  FULL STATEMENT: for every well-formed list
+`segs ≠ []` written in either notation and every further segment `sg` such that `segs ++ [sg]` is
+well-formed, `YAMLPath(text).append(canonical text of sg)` followed by `pop()` returns that segment
+(in its unescaped form) and leaves exactly the original text.  Proved for all of them except the
+inputs on which the pinned code fails (reproduced on /repo): `appendable` excludes an `&(…)`
+collector — `YAMLPath("(a)").append("&(b)")` is read as `(a)(b)` and `pop()` leaves `(a).&` — and an
+anchor whose name starts with `+ - &` directly behind a collector; `fslashExpressible` /
+`dotExpressible` are the restrictions of `parse_write_inferred_partial` on the text one starts from.
+`segText f sg` is the library's own rendering of the segment (what the check appends). -/
+theorem append_pop_partial (f : Bool) (segs : List Seg) (sg : Seg) (hne : segs ≠ [])
+    (hwf : wfSegs (segs ++ [sg]) = true) (happ : appendable (lastIsColl false segs) sg = true)
+    (hx : if f then fslashExpressible segs = true else dotExpressible segs = true) :
+    popView ((PathObj.new (write f segs)).append (Sim.segText f sg)) =
+      .ok (keepEsc (Sim.sepOf f) sg, write f segs) := by
+  have hxf : f = true → fslashExpressible segs = true := by
+    intro h; subst h; exact hx
+  have hw : wfSegs segs = true := by
+    simp only [wfSegs, Sim.wfFrom_append, Bool.and_eq_true] at hwf
+    exact hwf.1
+  obtain ⟨hn, hu⟩ := Sim.append_parse f segs sg hne hwf happ hxf
+  have hnt := Sim.write_nonblank f segs hw
+  have hwne : write f segs ≠ [] := by
+    intro h0
+    have := parse_write_partial f segs hw hxf
+    rw [h0, Sim.parseWith_nil] at this
+    exact hne (Except.ok.inj this).symm
+  have hhead : if f then (write f segs).head? = some '/' else (write f segs).head? ≠ some '/' := by
+    cases f
+    · simpa [dotExpressible] using hx
+    · simp [write]
+  obtain ⟨hs1, _⟩ := inferSep_of_head f hwne hhead
+  have hhead2 : ∀ x : Str, if f then (write f segs ++ x).head? = some '/'
+      else (write f segs ++ x).head? ≠ some '/' := by
+    intro x
+    cases hw0 : write f segs with
+    | nil => exact absurd hw0 hwne
+    | cons c r => rw [hw0] at hhead; simpa using hhead
+  have hs2 : ∀ x : Str, inferSep (write f segs ++ x) = if f then .fslash else .dot :=
+    fun x => (inferSep_of_head f (by simp [hwne]) (hhead2 x)).1
+  rw [append_text _ _ hnt hwne, hs1]
+  have hc : (if (if f then SepOpt.fslash else SepOpt.dot) = SepOpt.dot then '.' else '/')
+      = Sim.sepOf f := by cases f <;> rfl
+  rw [hc]
+  apply pop_of_rendered (write f segs) (Sim.segText f sg) _ hn hnt
+    (by rw [hs2]; cases f <;> rfl)
+    (segs.map (keepEsc (Sim.sepOf f)) ++ [keepEsc (Sim.sepOf f) sg]) (keepEsc (Sim.sepOf f) sg)
+  · rw [hs2]
+    cases f <;> exact hu
+  · simp
+  · rw [hs2]
+    cases f <;> simp [render, Sim.segText, Sim.sepOf, SepOpt.isFslash, SepOpt.char]
+
 /-! Witnesses: the hypotheses are met by concrete, non-trivial values. -/
 
 def demo : List Seg :=
@@ -195,6 +369,14 @@ example : wfSegs demoAll = true ∧ parse true (write false demoAll) = .ok demoA
 example : dotExpressible [(.key, .str "/a".toList)] = false ∧
     parse true (write false [(.key, .str "/a".toList)]) = .ok [(.key, .str "a".toList)] := by
   decide +kernel
+/-- `append_pop_partial` is not vacuous: a list with every kind, lengthened by a search segment -/
+example : wfSegs (demoAll ++ [(.search, .search false .regex "a.b".toList "x y".toList)]) = true ∧
+    appendable (lastIsColl false demoAll) (.search, .search false .regex "a.b".toList "x y".toList) = true ∧
+    fslashExpressible demoAll = true ∧ dotExpressible demoAll = true := by decide +kernel
+/-- the excluded append (finding C08-6, second face): the model, like /repo, reads `(a).&(b)` as two
+plain collectors and `pop()` leaves `(a).&` -/
+example : popView ((PathObj.new "(a)".toList).append "&(b)".toList)
+    = .ok ((.collector, .collector "b".toList .none), "(a).&".toList) := by decide +kernel
 /-- append then pop on a concrete path (model): the segment comes back and the text is restored -/
 example : popView ((PathObj.new "a.b[1]".toList).append "c\\.d".toList)
     = .ok ((.key, .str "c\\.d".toList), "a.b[1]".toList) := by decide +kernel
